@@ -59,6 +59,8 @@ func errClass(err error) string {
 		return "notfound"
 	case errors.Is(err, store.ErrDuplicate):
 		return "duplicate"
+	case errors.Is(err, badger.ErrConflict):
+		return "conflict" // a transaction conflict with a writer outside this store's key lock: the call has no effect
 	}
 	return "error"
 }
@@ -211,6 +213,9 @@ var kvModel = porcupine.Model{
 		in := input.(stOpIn)
 		out := output.(string)
 		f := strings.Split(in.op, ":")
+		if out == "conflict" && (f[0] == "create" || f[0] == "update" || f[0] == "delete") {
+			return true, cur
+		}
 		switch f[0] {
 		case "create":
 			if cur != "" {
@@ -255,6 +260,12 @@ func JudgeStore(r *vsched.Result) []string {
 		tag   string
 		write bool
 	}
+	twoHandles := false
+	for _, e := range r.Events {
+		if strings.HasPrefix(e.Text, "beforechange ") {
+			twoHandles = true // scenario ST4: the two threads use different Store handles, which do not exclude each other
+		}
+	}
 	open := map[string][]openTxn{}
 	calls := map[string]porcupine.Operation{}
 	var ops []porcupine.Operation
@@ -276,7 +287,10 @@ func JudgeStore(r *vsched.Result) []string {
 		case "txn-open":
 			id, w := kv(f, "id"), kv(f, "write") == "true"
 			for _, o := range open[id] {
-				if o.write || w {
+				if (o.write || w) && o.tag[:2] == f[1][:2] && false {
+					_ = o
+				}
+				if (o.write || w) && !twoHandles {
 					add("transaction %s on id %q was granted while transaction %s (write=%v) on the same id is open", f[1], id, o.tag, o.write)
 				}
 			}
@@ -323,7 +337,8 @@ func JudgeStore(r *vsched.Result) []string {
 			if !seen {
 				prev = "nil"
 			}
-			if before != prev {
+			if before != prev && !twoHandles {
+				// (with two Store handles nothing orders the callbacks of different handles like their commits)
 				add("change callback for %q has before=%s, but the previous change of that id left %s", id, before, prev)
 			}
 			lastAfter[id] = after
@@ -343,7 +358,7 @@ func JudgeStore(r *vsched.Result) []string {
 		if a, ok := lastAfter[id]; ok && a != "nil" {
 			want = "ok:" + a
 		}
-		if res != want {
+		if res != want && !twoHandles {
 			add("final value of %q is %s, the change callbacks say %s", id, res, want)
 		}
 	}
@@ -351,6 +366,41 @@ func JudgeStore(r *vsched.Result) []string {
 }
 
 func init() {
+	// ST4: two Store handles on one database (each has its own key lock) update the same id; a BeforeChange
+	// listener yields inside the database transaction, so the two transactions can conflict. A call that fails
+	// with a conflict must have no effect and run no change callback.
+	reg(&Scenario{Name: "ST4-badger", Make: func(cfg Cfg) (func(), *Spec) {
+		sp := &Spec{Closes: -1, Store: true}
+		return func() {
+			ClearDB()
+			mk := func() *badgerstore.Store {
+				s := badgerstore.NewStore(DB).SetPrefix("p")
+				s.BeforeChange(func(id string, before, after interface{}) error {
+					vsched.Emit(Mon, "beforechange id="+id)
+					return nil
+				})
+				s.OnChange(func(id string, before, after interface{}) {
+					vsched.Emit(Mon, fmt.Sprintf("onchange id=%s before=%s after=%s", id, js(before), js(after)))
+				})
+				return s
+			}
+			a, b := mk(), mk()
+			stThread(a, "M", []stTxn{{true, "a", []string{"create:0"}}})
+			done := make(chan struct{}, 4)
+			spawn("T0", done, func() { stThread(a, "T0", []stTxn{{true, "a", []string{"update:1"}}}) })
+			spawn("T1", done, func() { stThread(b, "T1", []stTxn{{true, "a", []string{"update:2"}}}) })
+			join(done, 2)
+			rt := a.Read("a")
+			v, err := rt.Value()
+			rt.Close()
+			r := errClass(err)
+			if err == nil {
+				r = "ok:" + js(v)
+			}
+			vsched.Emit(Mon, fmt.Sprintf("final id=a res=%s", r))
+		}, sp
+	}})
+
 	// IX1: queries racing with index maintenance up to the Flush (C13): M mutates, F (ordered after M's calls
 	// returned) flushes and queries; the result must reflect both mutations.
 	reg(&Scenario{Name: "IX1", Make: func(cfg Cfg) (func(), *Spec) {
